@@ -12,7 +12,7 @@ Assemble/_optimized_for_numpy rewrites.
 import ast
 
 from sa import AnalysisError
-from sa.astutil import dotted, src, stmt_text, params, arity, find_stmts, calls_in, method_name, walk_no_nested, const
+from sa.astutil import dotted, src, stmt_text, params, arity, find_stmts, calls_in, method_name, walk_no_nested, const, resolved
 from sa.paths import PathEnumerator, Event
 
 MUTATORS = {'array_fill_zeros': 0, 'array_add_at': 0, 'array_iadd': 0, 'array_imul': 0, 'array_copy': 0}
@@ -203,7 +203,17 @@ def check_who_may_call(model, rep):
         if mem is None or mem.func is None:
             continue
         f = mem.func
-        esc = [s for s in f.body if isinstance(s, ast.If) and src(s.test).replace(' ', '') == 'out_block_id>builder.get_block_id(self.index)' and any(isinstance(b, ast.Return) and src(b.value) == 'NotImplemented' for b in s.body)]
+        def is_escape(s):
+            # `out_block_id > builder.get_block_id(self.index)` in any spelling (mirrored, or with the block id of the index held in a local)
+            if not (isinstance(s, ast.If) and isinstance(s.test, ast.Compare) and len(s.test.ops) == 1 and any(isinstance(b, ast.Return) and src(b.value) == 'NotImplemented' for b in s.body)):
+                return False
+            l, r = resolved(f.node, s.test.left, s.lineno), resolved(f.node, s.test.comparators[0], s.lineno)
+            if isinstance(s.test.ops[0], ast.Lt):
+                l, r = r, l
+            elif not isinstance(s.test.ops[0], ast.Gt):
+                return False
+            return src(l) == 'out_block_id' and src(r).replace(' ', '') == 'builder.get_block_id(self.index)'
+        esc = [s for s in f.body if is_escape(s)]
         first_emit = min([x.lineno for x in calls_in(f.node) if method_name(x) in ('array_fill_zeros', 'compile_with_out', 'compile')] or [10 ** 9])
         ok = len(esc) == 1 and esc[0].lineno < first_emit
         rep.ob('R02.3', f.key, f.where(esc[0]) if esc else f.where(), ok, f'{c.name} declines in-place compilation when the loop body would precede the definition of out' if ok else
